@@ -45,6 +45,7 @@ constexpr double score_floor = eps * 1e+3; // the library clamps every RSS at 1e
 
 const char* const sig_dstep_crash = "C10/dstep/fit/all-missing-feature-crash";
 const char* const sig_dtree_crash = "C10/dtree/predict/empty-branch-crash";
+const char* const sig_affine_noise = "C10/affine/fit/constant-feature-noise-fit";
 
 // ---------------------------------------------------------------------------------------
 // cases
@@ -559,6 +560,7 @@ struct hyp_t
     ld   s{0};           // RSS of the best coefficients of this hypothesis (feature, threshold, direction, label)
     ld   tol{0};         // 1e3 * eps * (sum of the magnitudes of the terms the closed forms combine)
     bool reliable{true}; // false: the library may legitimately skip it (degenerate / ill-conditioned least squares)
+    bool degenerate{false}; // affine: the feature is constant among the fit samples (singular normal equations)
     int  feature{-1};
     int  distinct{0};    // distinct values / labellings of the feature among the fit samples
 };
@@ -785,9 +787,10 @@ std::vector<hyp_t> brute_affine(const fitdata_t& f)
         if (p.distinct < 2)
         {
             // constant feature: w*x+b spans the constants only; singular normal equations, the library may skip the feature
-            h.s        = p.missing + rss_constant(f, present);
-            h.tol      = 1e-9 * (f.G2 + 1);
-            h.reliable = false;
+            h.s          = p.missing + rss_constant(f, present);
+            h.tol        = 1e-9 * (f.G2 + 1);
+            h.reliable   = false;
+            h.degenerate = true;
             H.push_back(h);
             continue;
         }
@@ -937,7 +940,7 @@ std::vector<hyp_t> brute(int kind, const fitdata_t& f)
 
 struct bounds_t
 {
-    bool any{false}, any_reliable{false};
+    bool any{false}, any_reliable{false}, all_reliable{true};
     ld   lo[2]{0, 0};  // min over all hypotheses of s - B*tol           (B = 1, 10)
     ld   hi[2]{0, 0};  // min over the reliable hypotheses of s + B*tol
     ld   phi[2]{0, 0}; // upper bound of the RSS of the selected hypothesis (max over the hypotheses that can win)
@@ -955,7 +958,8 @@ bounds_t make_bounds(const std::vector<hyp_t>& H)
     b.best                                = inf;
     for (const auto& h : H)
     {
-        b.any = true;
+        b.any          = true;
+        b.all_reliable = b.all_reliable && h.reliable;
         for (int i = 0; i < 2; ++i)
         {
             b.lo[i] = std::min(b.lo[i], h.s - B[i] * h.tol);
@@ -995,7 +999,7 @@ bounds_t make_bounds(const std::vector<hyp_t>& H)
     return b;
 }
 
-verdict_t judge_score(const std::string& who, double score, const bounds_t& b, ctx_t& ctx)
+verdict_t judge_score(const std::string& who, double score, const std::vector<hyp_t>& H, const bounds_t& b, ctx_t& ctx)
 {
     const auto no_fit = nano::wlearner_t::no_fit_score();
     if (!b.any)
@@ -1021,9 +1025,35 @@ verdict_t judge_score(const std::string& who, double score, const bounds_t& b, c
     const ld s = score;
     const ld lo1 = std::max(b.lo[0], static_cast<ld>(score_floor)), lo10 = std::max(b.lo[1], static_cast<ld>(score_floor));
     const ld hi1 = std::max(b.hi[0], static_cast<ld>(score_floor)), hi10 = std::max(b.hi[1], static_cast<ld>(score_floor));
-    if (b.any_reliable && b.best_tol > 0)
+    if (b.all_reliable && b.best_tol > 0)
     {
+        // only where no ambiguous (degenerate / ill-conditioned) hypothesis exists: distance of the score to the minimum in units of the tolerance
         ctx.maximum(who + ":|score-bruteforce|/tol", static_cast<double>(std::fabs(s - std::max(b.best, static_cast<ld>(score_floor))) / b.best_tol));
+    }
+    if (!b.all_reliable)
+    {
+        // with ambiguous hypotheses around (constant feature, ill-conditioned least squares): how far is the score from the
+        // RSS of the nearest hypothesis?
+        ld   nearest = std::numeric_limits<ld>::infinity();
+        bool degenerate_below = false; // an exactly degenerate hypothesis (affine: constant feature) could explain a noise fit
+        for (const auto& h : H)
+        {
+            if (h.tol > 0)
+            {
+                nearest = std::min(nearest, std::fabs(s - std::max(h.s, static_cast<ld>(score_floor))) / h.tol);
+            }
+            degenerate_below = degenerate_below || (h.degenerate && h.s - 10 * h.tol <= s);
+        }
+        ctx.maximum(who + ":ambiguous:|score-nearest-hypothesis|/tol", static_cast<double>(nearest));
+        if (s >= lo10 && s <= hi10 && nearest > 10 && degenerate_below && who == "affine")
+        {
+            // Accepted interval, but neither reading explains the value: it is not the optimum over the class (best constant on
+            // the constant feature) and not the optimum with the constant features skipped. Mechanism: the determinant of the
+            // singular normal equations is rounding noise, the coefficients (w, b) are noise / noise.
+            return verdict_t::known(sig_affine_noise, cat("score=", score, " is the RSS of an arbitrary constant on a constant feature; brute force: ",
+                                                          "best non-degenerate feature ", static_cast<double>(b.best), ", accepted=[", static_cast<double>(lo10), ",",
+                                                          static_cast<double>(hi10), "]"));
+        }
     }
     ctx.label_if(score == score_floor, (who + ":score-at-floor").c_str());
     if (s >= lo1 && s <= hi1)
@@ -1229,7 +1259,8 @@ verdict_t check_optimal(const opt_case_t& c, ctx_t& ctx)
         nt_t       nt;
         data_classes(e, b, ctx, nt);
 
-        bool known_dstep = false;
+        bool      known_dstep = false;
+        verdict_t pending_known;
         for (const int kind : {l_stump, l_hinge, l_affine, l_dense, l_dstep})
         {
             const std::string who = lname(kind);
@@ -1258,8 +1289,12 @@ verdict_t check_optimal(const opt_case_t& c, ctx_t& ctx)
             const auto score = w->fit(*e.dataset, fit, grads);
             const auto H     = brute(kind, fd);
             const auto bnd   = make_bounds(H);
-            const auto v     = judge_score(who, score, bnd, ctx);
-            if (!v.is_ok())
+            const auto v     = judge_score(who, score, H, bnd, ctx);
+            if (v.kind == kind_t::known)
+            {
+                pending_known = v; // keep checking the remaining learners, report at the end
+            }
+            else if (!v.is_ok())
             {
                 return v;
             }
@@ -1320,7 +1355,7 @@ verdict_t check_optimal(const opt_case_t& c, ctx_t& ctx)
             {
                 return verdict_t::borderline(who + ":predict-rss");
             }
-            if (bnd.any_reliable && bnd.best_tol + Tp > 0)
+            if (bnd.all_reliable && bnd.best_tol + Tp > 0)
             {
                 ctx.maximum(who + ":|predict-rss-bruteforce|/tol", static_cast<double>(std::fabs(P - bnd.best) / (bnd.best_tol + Tp)));
             }
@@ -1341,6 +1376,10 @@ verdict_t check_optimal(const opt_case_t& c, ctx_t& ctx)
                 ctx.label_if(bnd.lo[0] + 1e-6 * (fd.G2 + 1) < bnd.hi[0] && static_cast<ld>(score) > bnd.lo[0] + 1e-6 * (fd.G2 + 1),
                              "affine:constant-feature-would-win-but-is-skipped");
             }
+        }
+        if (pending_known.kind == kind_t::known)
+        {
+            return pending_known;
         }
         if (known_dstep)
         {
@@ -1906,10 +1945,35 @@ verdict_t check_consistency(const con_case_t& c, ctx_t& ctx)
 }
 } // namespace
 
+// Shrinking a failing case re-runs the check for every candidate (tens of thousands of candidates for the large
+// case structures here).  After the first violation of a sub-check at most `shrink_budget` further evaluations are
+// judged; the rest is answered "ok" so that rapidcheck stops at the smallest failing case found so far (which the
+// driver then replays in a fresh process).  No effect on runs without a violation and on --replay.
+constexpr int shrink_budget = 3000;
+
+template <class tcase, class tcheck>
+std::function<verdict_t(const tcase&, ctx_t&)> budgeted(tcheck check)
+{
+    auto after_failure = std::make_shared<int>(-1);
+    return [check, after_failure](const tcase& c, ctx_t& ctx)
+    {
+        if (*after_failure >= 0 && ++(*after_failure) > shrink_budget)
+        {
+            return verdict_t::ok();
+        }
+        auto v = check(c, ctx);
+        if (v.kind == kind_t::violation && *after_failure < 0)
+        {
+            *after_failure = 0;
+        }
+        return v;
+    };
+}
+
 int main(int argc, char** argv)
 {
     suite_t suite("C10");
-    suite.add<opt_case_t>("optimal", gen_opt_case, check_optimal, 1.0);
-    suite.add<con_case_t>("consistency", gen_con_case, check_consistency, 1.0);
+    suite.add<opt_case_t>("optimal", gen_opt_case, budgeted<opt_case_t>(check_optimal), 1.0);
+    suite.add<con_case_t>("consistency", gen_con_case, budgeted<con_case_t>(check_consistency), 1.0);
     return suite.main(argc, argv);
 }
